@@ -12,6 +12,8 @@
    program (harness, side 2 of the triangle). *)
 EXTENDS Naturals, FiniteSets, Sequences, TLC
 
+CONSTANT Pep709     \* TRUE: CPython >= 3.12 semantics, comprehensions (kind "g") are inlined list/set/dict comprehensions
+
 FunctionLike(k) == k \in {"f", "l", "g"}
 
 \* nearest enclosing scope that is not a comprehension: where a walrus target written in comprehension s is bound
@@ -26,23 +28,35 @@ EU(par, kind, U, S, s, n) ==
 LocalIn(par, kind, U, S, s, n) == /\ EU(par, kind, U, S, s, n) \cap {"store", "param"} # {}
                                   /\ EU(par, kind, U, S, s, n) \cap {"gdecl", "ndecl"} = {}
 
-\* free-variable lookup starting at ancestor t: classes are invisible, an explicit global stops the search
-RECURSIVE Free(_, _, _, _, _, _)
-Free(par, kind, U, S, t, n) ==
+\* PEP 709 (CPython >= 3.12): list / set / dict comprehensions are inlined into the function that contains them.  Their iteration
+\* variables then count as bound in that function when a scope nested in it (another comprehension, a lambda, a def) looks the name up
+\* as a free variable: the lookup stops there, at a cell that is unassigned outside the comprehension.  It does not apply at module or
+\* class level, to explicit globals, or to the comprehension's own lookups.  Inlined(par, kind, U, S, t, n, from): is n such a leaked
+\* iteration variable of a comprehension written directly in function-like t, seen from the nested scope `from`.
+\* The including module defines Pep709 (TRUE: kind "g" stands for an inlined comprehension; FALSE: for a generator expression / <= 3.11).
+Leaks(par, kind, U, S, t, n, from) ==
+    /\ Pep709
+    /\ kind[t] \in {"f", "l"}
+    /\ \E c \in S : kind[c] = "g" /\ par[c] = t /\ c # from /\ "store" \in U[c][n]
+
+\* free-variable lookup starting at ancestor t (reached from its child `from`): classes are invisible, an explicit global stops the search
+RECURSIVE Free(_, _, _, _, _, _, _)
+Free(par, kind, U, S, t, n, from) ==
     IF t = 0 \/ t = 1 THEN <<"G", 0>>
-    ELSE IF kind[t] = "c" THEN Free(par, kind, U, S, par[t], n)
+    ELSE IF kind[t] = "c" THEN Free(par, kind, U, S, par[t], n, t)
     ELSE IF "gdecl" \in EU(par, kind, U, S, t, n) THEN <<"G", 0>>
     ELSE IF LocalIn(par, kind, U, S, t, n) THEN <<"L", t>>
-    ELSE Free(par, kind, U, S, par[t], n)
+    ELSE IF Leaks(par, kind, U, S, t, n, from) THEN <<"LI", t>>          \* the leaked cell: a binding of its own
+    ELSE Free(par, kind, U, S, par[t], n, t)
 
 \* the binding an occurrence of n evaluated in scope s refers to: <<"G", 0>> or <<"L", scope>>
 RECURSIVE PyB(_, _, _, _, _, _)
 PyB(par, kind, U, S, s, n) ==
     IF s = 1 THEN <<"G", 0>>
     ELSE IF "gdecl" \in EU(par, kind, U, S, s, n) THEN <<"G", 0>>
-    ELSE IF "ndecl" \in EU(par, kind, U, S, s, n) THEN Free(par, kind, U, S, par[s], n)
+    ELSE IF "ndecl" \in EU(par, kind, U, S, s, n) THEN Free(par, kind, U, S, par[s], n, s)
     ELSE IF LocalIn(par, kind, U, S, s, n) THEN <<"L", s>>
-    ELSE Free(par, kind, U, S, par[s], n)
+    ELSE Free(par, kind, U, S, par[s], n, s)
 \* scope in which an occurrence is evaluated / bound
 OccScope(par, kind, s, how) == IF how = "walrus" /\ kind[s] = "g" THEN WTarget(par, kind, s) ELSE s
 
@@ -63,7 +77,7 @@ CompChain(par, kind, s) == IF kind[s] # "g" THEN {} ELSE {s} \cup CompChain(par,
 Compilable(par, kind, U, S, Nm) ==
     /\ \A s \in S : kind[s] \in {"f", "c"} => (par[s] = 0 \/ kind[par[s]] \notin {"g", "l"})   \* no def/class inside an expression scope
     /\ \A s \in S, n \in Nm :
-          /\ ("ndecl" \in U[s][n] => (s # 1 /\ Free(par, kind, U, S, par[s], n)[1] = "L"))
+          /\ ("ndecl" \in U[s][n] => (s # 1 /\ Free(par, kind, U, S, par[s], n, s)[1] = "L"))
           /\ ("gdecl" \in U[s][n] => s # 1)
           /\ (kind[s] = "g" /\ "walrus" \in U[s][n] => kind[WTarget(par, kind, s)] # "c")
     /\ \A s \in S, n \in Nm :
